@@ -75,6 +75,10 @@ def check(chk):
                    detail=src(c), construct=h_.ident, text="delayed control event named / altered in " + qn_)
     chk.ob("DOM-33", "delayed control event sites examined", n_ce >= 2, "mpf/core/device_manager.py:1", nontrivial=False)
     chk.floor("DOM-33", 10)
+    # a logic block that is unloaded forgets its state object on every path (also a persisted one: its step handlers stay registered with the
+    # event manager and are held off only by `enabled` being false without a state; shared with C07 / C11)
+    from sa.helpers import unload_cleanup_unconditional
+    unload_cleanup_unconditional(chk, "DOM-33")
 
     # ------------------------------------------------------------ DOM-34
     f = base.methods["complete"]
@@ -314,6 +318,7 @@ def battery():
         M("hit window restarted by ignored hits", LB, "            if self.config['multiple_hit_window']:\n                self.debug_log(\"Beginning Ignore Hits\")\n                self.ignore_hits = True\n                self.delay.add(name='ignore_hits_within_window',\n                               ms=self.config['multiple_hit_window'],\n                               callback=self.stop_ignoring_hits)", "        if self.config['multiple_hit_window']:\n            self.debug_log(\"Beginning Ignore Hits\")\n            self.ignore_hits = True\n            self.delay.add(name='ignore_hits_within_window',\n                           ms=self.config['multiple_hit_window'],\n                           callback=self.stop_ignoring_hits)", "PAIR-21"),
         M("completed counter drops hits", LB, "        if not self.enabled:\n            return\n\n        count_complete_value =", "        if not self.enabled or self.completed:\n            return\n\n        count_complete_value =", "DOM-33"),
         M("delayed control events share a name", "mpf/core/device_manager.py", "        delay_mgr.add(ms=ms_delay, callback=callback)", "        delay_mgr.add(ms=ms_delay, callback=callback, name=str(callback))", "DOM-33"),
+        M("persisted logic block keeps its state when unloaded", LB, "        self._state = None\n", "        if not self.config['persist_state']:\n            self._state = None\n", "DOM-33", nth=-1),
     ]
 
 
